@@ -34,7 +34,8 @@ COMPONENTS = {
 PROBES = ["final-sample clamp fired (total > N t)", "null mean hit 0 before cut", "null mean > u before cut",
           "null mean negative before cut", "cut at 1", "cut at n-1", "truncation lowered the k-th entry",
           "call raised", "whole-number sample handed over as ints", "rounds evaluated on views of one buffer",
-          "SPRT alternative recovered from two futures"]
+          "SPRT alternative recovered from two futures", "sample longer than 4096 draws",
+          "estimator / bettor asked again after another sample of the same length was tested"]
 
 
 def generate(rng, tier):
@@ -43,6 +44,8 @@ def generate(rng, tier):
     u, t = cfg["u"], cfg["t"]
     finite = cfg["mode"] == "finite"
     n = rng.randint(2, rng.pick([6, 12, cfg_t["nmax"]]))
+    if rng.chance(cfg_t.get("p_long", 0.004)):
+        n = rng.randint(4097, 5200)  # a sample as long as a large audit's (thousands of cards)
     q = 64
     umax = int(math.floor(u * q + 1e-12))
     style = rng.pick(["any", "low", "high", "binary", "const-then-jump", "at-null", "binary"])
@@ -156,6 +159,13 @@ def execute(case):
             out.probe("final-sample clamp fired (total > N t)")
     if case.get("as_given"):
         out.probe("whole-number sample handed over as ints")
+    if n > 4096:
+        out.probe("sample longer than 4096 draws")
+    # what the estimator / bettor says about x before anything else has been evaluated (compared again at the end)
+    first_aux = {}
+    for label, fn, used in (("estim", tst.estim, cfg["test"] == "ALPHA_MART"), ("bet", tst.bet, cfg["test"] == "BETTING_MART")):
+        if used:
+            first_aux[label] = _aux(out, fn, x, case)
     a = _call(out, tst, x, case)
     b = _call(out, tst, fork, case)
     c = _call(out, tst, trunc, case)
@@ -257,11 +267,35 @@ def execute(case):
                             f"{label} for draw {j + 1} is {ea[j]!r} with future {x[k:][:4]} but {eb[j]!r} with future "
                             f"{y[:4]} (the first {k} draws are identical)")
                 break
+        # ... and on nothing else: not on what this (or any other) test object evaluated in the meantime.  Evaluate another
+        # sample of the same length, then ask about x again.
+        z = (fork + x[::-1])[:n]
+        if z != x and first_aux.get(label) is not None:
+            _call(out, tst, z, case)
+            again = _aux(out, fn, x, case)
+            out.probe("estimator / bettor asked again after another sample of the same length was tested")
+            if again is not None and len(again) == len(first_aux[label]):
+                for j in range(len(again)):
+                    if not tight(again[j], first_aux[label][j]):
+                        out.violate("C05.c", f"{name}/{cfg['mode']}/{label}/depends-on-earlier-calls",
+                                    f"{label} for draw {j + 1} of the same sample was {first_aux[label][j]!r} when first asked and "
+                                    f"{again[j]!r} after another sample of the same length had been tested")
+                        break
+    # the same sample evaluated again after all of the above gives the same history
+    if a is not None and n <= 4096:
+        a2 = _call(out, tst, x, case)
+        if a2 is not None and len(a2[1]) == len(a[1]) and any(not tight(u_, v_) for u_, v_ in zip(a[1], a2[1])):
+            out.violate("C05.b", path + "/depends-on-earlier-calls", f"the same {n} draws evaluated again after other samples give "
+                                                                     f"{a2[1][:4]}..., at first {a[1][:4]}... (N={N})")
     return out
 
 
 def reducers(case):
     x, k, y = case["x"], case["k"], case["y"]
+    if "u_init" in case["cfg"]:
+        c = copy.deepcopy(case)
+        del c["cfg"]["u_init"]
+        yield c
     # shorten the futures
     if len(y) > 1:
         c = copy.deepcopy(case)
